@@ -59,7 +59,7 @@ def as_relation(e, truth):
         return (r, e[2], e[3])
     if e[0] == 'call' and len(e[2]) == 2:
         last = e[1].rsplit('::', 1)[-1]
-        if last in ('eq', 'ne', 'lt', 'le', 'gt', 'ge') and ('cmp' in e[1] or 'Partial' in e[1]):
+        if last in ('eq', 'ne', 'lt', 'le', 'gt', 'ge'):
             r = last
             if not truth:
                 r = NEG[r]
